@@ -44,6 +44,7 @@ MRequired(a) ==
     [] a.cls = "Stiefel" -> {"isometry", "shape", "same"} \cup (IF a.cplx THEN {} ELSE {"real"})
     [] a.cls = "QuantumChannel" -> IF a.opt = 0 THEN {"kraus", "same"} ELSE {"hermitian", "gram", "tp", "same"}
     [] a.cls = "SeparableDensityMatrix" -> {"hermitian", "trace1", "gram", "sepdecomp", "same"}
+    [] a.cls \in {"ABkHermitian", "ABk2localHermitian"} -> {"hermitian", "shape"} \cup (IF a.opt = 2 THEN {"symB"} ELSE {})
     [] OTHER -> {"no such class"}
 EventOK(e) == /\ MRequired(e.a) \subseteq {e.claims[i].c : i \in 1..Len(e.claims)}
               /\ \A i \in 1..Len(e.claims) : MClaimOK(e.claims[i], e.S)
